@@ -21,7 +21,7 @@ from sim.runner import Lane
 
 TEXTS = ["G1 X10 Y20", "M3 S1000", "G0 Z5   ", "\tG4 P1", "T1 M6", "G1 X1.5 Y-2.25 F1200", "M117 hello world",
          "G92 E0", "M400", "G28 X Y"]
-UNI = ["Ünïcödé ✓", "日本語のコメント", "naïve café", "π≈3.14159", "emoji 🛠 ok", "plain ascii", "tab\tinside", "trailing  "]
+UNI = ["line\u2028separator", "para\u2029graph", "nel\x85char", "vt\x0bff\x0cfs\x1cgs\x1drs\x1e", "Ünïcödé ✓", "日本語のコメント", "naïve café", "π≈3.14159", "emoji 🛠 ok", "plain ascii", "tab\tinside", "trailing  "]
 PATH_KINDS = ("path", "pathnested", "relpath", "relnested")
 KINDS_FILES = ["path", "path", "pathnested", "bin", "bin", "text", "textnl", "bytesio", "stringio", "custom",
                "console", "codecs", "tmptext", "ducktext", "relpath", "relnested"]
@@ -64,6 +64,8 @@ def gen(seed, run, sub="files", tier="quick"):
             ops.append(["add", r.randrange(len(writers))])
         elif u < 0.72:
             ops.append(["remove", r.randrange(len(writers))])
+        elif u < 0.735:
+            ops.append(["set_le", r.choice(["os", "\\n", "\\r\\n", "\\r"])])
         elif u < 0.75:
             ops.append(["wdisc", r.randrange(len(writers))])
         elif u < 0.82:
@@ -283,6 +285,7 @@ def execute(scn, guide=None, keep=False):
         le = scn["line_ending"]
         g = GCodeBuilder(line_endings=le)
         eol = os.linesep if le == "os" else le.encode().decode("unicode-escape")
+        cur = {"eol": eol}
         r0 = Rec("R0")
         g.add_writer(r0)
         for spec in scn["writers"]:
@@ -303,8 +306,10 @@ def execute(scn, guide=None, keep=False):
                 except UnicodeDecodeError:
                     V("not-utf8", line=b[:40].hex())
                     continue
+                eol = cur["eol"]
                 if not t.endswith(eol) or (eol in t[:-len(eol)]):
                     V("line-ending", line=t[:40])
+            eol = cur["eol"]
             if raw is not None and new and new[0] != (raw.rstrip() + eol).encode("utf-8"):
                 V("raw-bytes", got=new[0][:60].hex(), want=(raw.rstrip() + eol).encode("utf-8")[:60].hex())
             for w in pool:
@@ -340,6 +345,10 @@ def execute(scn, guide=None, keep=False):
                 elif kind == "halt_seq":
                     g.emergency_halt(op[1])
                     absorb(4)
+                elif kind == "set_le":
+                    # the application changes the line ending of the live formatter
+                    g.format.set_line_endings(op[1])
+                    cur["eol"] = os.linesep if op[1] == "os" else op[1].encode().decode("unicode-escape")
                 elif kind == "wdisc":
                     # the application disconnects one writer itself (FileWriter reopens lazily)
                     w = pool[op[1]]
